@@ -58,16 +58,16 @@ Definition walk_kids (wt : bool -> tree -> bool * list warning) : bool -> list t
     end.
 Fixpoint walk_tree (flag : bool) (t : tree) {struct t} : bool * list warning :=
   match t with
-  | T p hit kids =>
-      let ws := if hit then [(p, "can simplify")] else [] in
+  | T p warn hit kids =>
+      let ws := if warn then [(p, "can simplify")] else [] in
       if flag || hit then (false, ws)                      (* v := SkipChilds; SkipChilds = false; return !v *)
       else let '(f, w) := walk_kids walk_tree false kids in (f, (ws ++ w)%list)
   end.
 (* the seeded defect: skipChilds() no longer clears the flag *)
 Fixpoint walk_tree_noreset (flag : bool) (t : tree) {struct t} : bool * list warning :=
   match t with
-  | T p hit kids =>
-      let ws := if hit then [(p, "can simplify")] else [] in
+  | T p warn hit kids =>
+      let ws := if warn then [(p, "can simplify")] else [] in
       if flag || hit then (true, ws)
       else let '(f, w) := walk_kids walk_tree_noreset false kids in (f, (ws ++ w)%list)
   end.
@@ -76,6 +76,10 @@ Definition sk_visit (wt : bool -> tree -> bool * list warning) (fl : bool) (s : 
 Definition sk_on_decl := stmt_on_decl (fun fl : bool => fl) (sk_visit walk_tree).
 Definition sk_on_decl_noreset := stmt_on_decl (fun fl : bool => fl) (sk_visit walk_tree_noreset).
 Definition sk_run (_ : unit) (fl : bool) (f : file) := walk sk_on_decl fl f.
+(* typeUnparen: WalkerForTypeExpr walks function signatures + bodies and every non-import GenDecl; the trees are the
+   nodes handed to VisitTypeExpr with the nesting in which the walker reaches them *)
+Definition skt_on_decl := expr_on_decl (fun fl : bool => fl) (sk_visit walk_tree).
+Definition skt_run (_ : unit) (fl : bool) (f : file) := walk skt_on_decl fl f.
 
 (* ---- 3. ifElseChain: visited (reset in EnterFunc), cause (assigned before use) ---- *)
 Fixpoint memN (x : N) (l : list N) : bool := match l with [] => false | y :: r => N.eqb x y || memN x r end.
